@@ -9,3 +9,4 @@ import MiniconfVerif.Props.C01
 #print axioms MiniconfVerif.C01.source_tuple_access_is_model
 #print axioms MiniconfVerif.C01.source_option_access_is_model
 #print axioms MiniconfVerif.C01.source_result_bound_access_is_model
+#print axioms MiniconfVerif.C01.source_derive_access_is_model
